@@ -239,6 +239,11 @@ def check(ctx):
             ctx.ob("R4", st, "after waiting for its turn the ticket is removed with popleft() on every normal path", ok, key=f"{q}|no-popleft", where=loc(w.ast), path=cfg.fmt_path(path) if path else None)
             inside = any(isinstance(a, ast.With) and any("cond" in unparse(it.context_expr) for it in a.items) for a in ancestors(w.ast))
             ctx.ob("R4", st, "the wait happens while holding the condition", inside, key=f"{q}|wait-outside-cond", where=loc(w.ast))
+            # ... and on the exceptional ways out as well: the work done under the ticket opens, reads and creates files (mkstemp,
+            # open, LazyJSON); if it raises with the ticket still at the front, every later flusher and reader - the at-exit
+            # flush included - waits forever and nothing typed afterwards is ever recorded
+            okx, pathx = cfg.must_pass([w], lambda m: m in pops, exits=("exit", "raise"), skip_edge=lambda a_, b_, l_: a_ is w and l_ == "exc")
+            ctx.ob("R4", st, "the ticket is removed on every way out of the work done under it, exceptions included (finally)", okx, key=f"{q}|ticket-kept-on-exception", where=loc(w.ast), path=cfg.fmt_path(pathx) if pathx else None)
         for p in pops:
             ok, path = cfg.must_pass([p], lambda m: m in notes, exits=("exit",))
             inside = any(isinstance(a, ast.With) and any("cond" in unparse(it.context_expr) for it in a.items) for a in ancestors(p.ast)) and all(any(isinstance(a, ast.With) and any("cond" in unparse(it.context_expr) for it in a.items) for a in ancestors(nn.ast)) for nn in notes)
